@@ -85,21 +85,145 @@ func stepFields(parent string, ss ast.SelectionSet, out map[clientField]bool) {
 // concreteFields: selecting a field on an interface selects it on every possible type — both the
 // client's selections and a sub-request's are compared at the level of object types, so that
 // `feed { rating }` (Media.rating) and `feed { ... on Book { rating } ... on Film { rating } }` agree.
-func concreteFields(schema *ast.Schema, in map[clientField]bool) map[clientField]bool {
+//
+// optional (may be nil) receives the expanded entries (T, f) of an interface I for which some service
+// declares I but not T: a field of that service returning I can never yield a T, so a plan that
+// does not ask for T.f below it is complete. (Which service resolves which selection is not
+// tracked here; C01 compares the data.)
+func concreteFields(schema *ast.Schema, in map[clientField]bool, services []*fed.Service, optional map[clientField]bool) map[clientField]bool {
 	out := map[clientField]bool{}
 	for f := range in {
 		d := schema.Types[f.Parent]
 		if d != nil && (d.Kind == ast.Interface || d.Kind == ast.Union) {
 			for _, pt := range schema.GetPossibleTypes(d) {
-				if pt.Fields.ForName(f.Name) != nil {
-					out[clientField{pt.Name, f.Name}] = true
+				if pt.Fields.ForName(f.Name) == nil {
+					continue
 				}
+				cfld := clientField{pt.Name, f.Name}
+				if !in[cfld] && optional != nil {
+					for _, sv := range services {
+						if sv.Schema.Types[f.Parent] != nil && sv.Schema.Types[pt.Name] == nil {
+							optional[cfld] = true
+						}
+					}
+				}
+				out[cfld] = true
 			}
 			continue
 		}
 		out[f] = true
 	}
 	return out
+}
+
+// c02IfaceCorrespondence: Model/IfaceSplit.lean against the real plan. When the client selects plain
+// fields (no fragment, no __typename) on an interface-typed field and the step sent to a service
+// carries inline fragments below it, these come from formatSelectionSetForInterface: their type
+// conditions, in order, must be the model's fragmentTypes for that service.
+func c02IfaceCorrespondence(ctx *Ctx, idx int, full coreCase, cf *coreFed, op *ast.OperationDefinition, rp *planner.QueryPlan) {
+	if ctx.Driver == nil {
+		return
+	}
+	plain := true
+	var scan func(ss ast.SelectionSet)
+	scan = func(ss ast.SelectionSet) {
+		for _, sel := range ss {
+			switch x := sel.(type) {
+			case *ast.Field:
+				if x.Name == "__typename" {
+					plain = false
+				}
+				scan(x.SelectionSet)
+			default:
+				plain = false
+			}
+		}
+	}
+	scan(op.SelectionSet)
+	if !plain {
+		return
+	}
+	schema := cf.Merged.Schema
+	var inputs []interface{}
+	for _, sv := range cf.F.Services {
+		types := []string{}
+		for name, d := range sv.Schema.Types {
+			if d.Kind != ast.Object || strings.HasPrefix(name, "__") {
+				continue
+			}
+			entry := false
+			for _, itf := range d.Interfaces {
+				if itf == "Node" {
+					entry = true
+				}
+			}
+			isRoot := name == "Query" || name == "Mutation" || name == "Subscription"
+			for _, f := range d.Fields {
+				if strings.HasPrefix(f.Name, "__") || f.Name == "id" || (isRoot && f.Name == "node") {
+					continue
+				}
+				entry = true
+			}
+			if entry {
+				types = append(types, name)
+			}
+		}
+		sort.Strings(types)
+		inputs = append(inputs, map[string]interface{}{"url": sv.URL, "types": types})
+	}
+	walkSteps(rp.RootSteps, func(st *planner.QueryPlanStep) {
+		var walk func(parent string, ss ast.SelectionSet)
+		walk = func(parent string, ss ast.SelectionSet) {
+			for _, sel := range ss {
+				switch x := sel.(type) {
+				case *ast.InlineFragment:
+					p := x.TypeCondition
+					if p == "" {
+						p = parent
+					}
+					walk(p, x.SelectionSet)
+				case *ast.Field:
+					pd := schema.Types[parent]
+					if pd == nil {
+						continue
+					}
+					fd := pd.Fields.ForName(x.Name)
+					if fd == nil {
+						continue
+					}
+					tn := fd.Type.Name()
+					td := schema.Types[tn]
+					if td != nil && td.Kind == ast.Interface {
+						var conds []string
+						for _, c := range x.SelectionSet {
+							if fr, ok := c.(*ast.InlineFragment); ok {
+								conds = append(conds, fr.TypeCondition)
+							}
+						}
+						if len(conds) > 0 {
+							defs := []string{}
+							for _, pt := range schema.PossibleTypes[tn] {
+								defs = append(defs, pt.Name)
+							}
+							res, err := ctx.Driver.Call(map[string]interface{}{"op": "c02.ifaceFragments", "inputs": inputs, "defs": defs, "loc": st.URL})
+							if err != nil {
+								ctx.Rep.Fail(hx.Failure{Kind: "harness-error", Detail: err.Error(), Case: full, Index: idx})
+								return
+							}
+							ctx.Rep.Traces++
+							ctx.Rep.Count("iface-fragments compared with Model.IfaceSplit")
+							if hx.Canon(res["fragments"]) != hx.Canon(conds) {
+								ctx.Rep.Fail(hx.Failure{Kind: "model-mismatch", Detail: fmt.Sprintf("fragments of the spread interface %s below %s.%s in the sub-request for %s differ from Model.IfaceSplit.fragmentTypes", tn, parent, x.Name, st.URL),
+									Case: full, Index: idx, Impl: map[string]interface{}{"fragments": conds, "query": st.QueryString}, Model: res})
+							}
+						}
+					}
+					walk(tn, x.SelectionSet)
+				}
+			}
+		}
+		walk(st.ParentType, st.SelectionSet)
+	})
 }
 
 func walkSteps(steps []*planner.QueryPlanStep, f func(*planner.QueryPlanStep)) {
@@ -138,13 +262,15 @@ func c02Check(ctx *Ctx, idx int, cs coreCase) {
 	client := map[clientField]bool{}
 	root := map[ast.Operation]string{ast.Query: "Query", ast.Mutation: "Mutation", ast.Subscription: "Subscription"}[op.Operation]
 	collectClientFields(cf.Merged.Schema, root, op.SelectionSet, client)
-	client = concreteFields(cf.Merged.Schema, client)
+	optional := map[clientField]bool{}
+	client = concreteFields(cf.Merged.Schema, client, cf.F.Services, optional)
 	_, opForPlanner, _ := loadOp(cf.Merged.Schema, cs.Query, cs.OpName)
 	rp, perr := realPlan(cf, opForPlanner, cs)
 	if perr != nil {
 		ctx.Rep.Fail(hx.Failure{Kind: "property-fails", Detail: "a valid operation could not be planned: " + perr.Error(), Case: full, Index: idx})
 		return
 	}
+	c02IfaceCorrespondence(ctx, idx, full, cf, op, rp)
 	svcByURL := map[string]*fed.Service{}
 	for _, s := range cf.F.Services {
 		svcByURL[s.URL] = s
@@ -195,7 +321,7 @@ func c02Check(ctx *Ctx, idx int, cs coreCase) {
 		sroot := map[ast.Operation]string{ast.Query: "Query", ast.Mutation: "Mutation", ast.Subscription: "Subscription"}[sop.Operation]
 		sf := map[clientField]bool{}
 		stepFields(sroot, sop.SelectionSet, sf)
-		sf = concreteFields(cf.Merged.Schema, sf)
+		sf = concreteFields(cf.Merged.Schema, sf, nil, nil)
 		for f := range sf {
 			covered[f] = true
 			if !client[f] && f.Name != "id" && !(f.Parent == "Query" && f.Name == "node") {
@@ -210,7 +336,7 @@ func c02Check(ctx *Ctx, idx int, cs coreCase) {
 			if f.Name == "id" || (f.Parent == "Query" && f.Name == "node") {
 				continue
 			}
-			if !covered[f] {
+			if !covered[f] && !optional[f] {
 				missing = append(missing, f.Parent+"."+f.Name)
 			}
 		}
